@@ -18,9 +18,12 @@ BASE = {
 }
 DES_FAMILY = {"des_crypt", "bsdi_crypt", "bigcrypt", "crypt16"}
 #: crypt()-compatible formats: NUL bytes are refused
-NUL_REFUSING = {"des_crypt", "bsdi_crypt", "bigcrypt", "crypt16", "md5_crypt", "apr_md5_crypt", "sha1_crypt", "sha256_crypt", "sha512_crypt", "bcrypt",
-                "bcrypt_sha256", "sun_md5_crypt", "django_bcrypt", "django_des_crypt", "ldap_des_crypt", "ldap_bsdi_crypt", "ldap_bcrypt", "ldap_md5_crypt",
+NUL_REFUSING = {"des_crypt", "bsdi_crypt", "bigcrypt", "md5_crypt", "apr_md5_crypt", "sha1_crypt", "sha256_crypt", "sha512_crypt", "bcrypt",
+                "django_bcrypt", "django_des_crypt", "ldap_des_crypt", "ldap_bsdi_crypt", "ldap_bcrypt", "ldap_md5_crypt",
                 "ldap_sha1_crypt", "ldap_sha256_crypt", "ldap_sha512_crypt"}
+#: crypt()-style formats that hash NUL bytes as data instead of refusing them (recorded finding C05 nul-accepted-by-sun-md5-and-crypt16);
+#: bcrypt_sha256 pre-hashes the secret, so NUL is ordinary input there by design
+NUL_AS_DATA = {"sun_md5_crypt", "crypt16", "bcrypt_sha256"}
 #: formats whose algorithm works on text (a bytes secret is decoded as UTF-8 first)
 TEXT_ONLY = {"nthash", "bsd_nthash", "msdcc", "msdcc2", "mssql2000", "mssql2005", "lmhash", "oracle10", "oracle11", "scram", "cisco_pix", "cisco_asa"}
 
